@@ -67,9 +67,38 @@ impl Compiler {
         self.current.current_offset()
     }
 
-    pub fn add_constant(&mut self, value: Value, _span: Span) -> Result<u16> {
+    pub fn add_constant(&mut self, value: Value, span: Span) -> Result<u16> {
         let idx = self.current.add_constant(value);
+        self.check_constant_pool(span)?;
         Ok(idx)
+    }
+
+    /// Adds a nested function to the pool. A capturing function is loaded by MakeClosure,
+    /// whose pool index is a one-byte operand.
+    pub fn add_function_constant(
+        &mut self,
+        func: aelys_bytecode::Function,
+        captures: bool,
+        span: Span,
+    ) -> Result<u16> {
+        let idx = self.current.add_constant_function(func);
+        self.check_constant_pool(span)?;
+        if captures && idx > u8::MAX as u16 {
+            return Err(self.too_many_constants(span));
+        }
+        Ok(idx)
+    }
+
+    // pool indices are u16 and the verifier refuses a longer pool: report it here, not at run time
+    fn check_constant_pool(&self, span: Span) -> Result<()> {
+        if self.current.constants.len() > u16::MAX as usize {
+            return Err(self.too_many_constants(span));
+        }
+        Ok(())
+    }
+
+    fn too_many_constants(&self, span: Span) -> aelys_common::error::AelysError {
+        CompileError::new(CompileErrorKind::TooManyConstants, span, self.source.clone()).into()
     }
 
     // inline cache: [op|dest|idx|nargs] [cache_lo] [cache_hi|slot_id]
